@@ -115,6 +115,8 @@ impl DoviRpu {
 
         // Ignore trailing bytes
         let rpu_end = data.len() - trailing_zeroes;
+        // Prefix, CRC32 and final byte at least
+        ensure!(rpu_end > 5, "Invalid RPU length: {}", rpu_end);
         let last_byte = data[rpu_end - 1];
 
         // Minus 4 bytes for the CRC32, 1 for the 0x80 ending byte
